@@ -247,9 +247,9 @@ write("C03", c03, ["the sequential reference is computed by the same harness on 
       ["more than one login or more than two sessions in flight", "weak-memory effects (Go's memory model gives SC for race-free programs)"], site_prefix="c03.")
 
 # ---- C07
-write("C07", [run("sshd-framing", SL, "VerifC07SyslogFraming", q({"M": 6}, preempt=0), t({"M": 9}, preempt=0), reach=["c07.sshd.delivered"], no_init_extra=True,
+write("C07", [run("sshd-framing", SL, "VerifC07SyslogFraming", q({"M": 6}, preempt=0), t({"M": 8}, preempt=0), reach=["c07.sshd.delivered"], no_init_extra=True,
                   bounds="'<pid 1..3 digits> <0..2 extra spaces><message 1..M bytes, any byte but newline, not starting with a space>\\\\n' through the real named-pipe and syslog ingesters"),
-              run("sshd-long-record", SL, "VerifC07LongRecord", q({"L": 4100}, preempt=0, max_steps=30000000), t({"L": 9000}, preempt=0, max_steps=60000000), reach=["c07.long.delivered"], no_init_extra=True,
+              run("sshd-long-record", SL, "VerifC07LongRecord", q({"L": 4100}, preempt=0, max_steps=30000000), t({"L": 9000}, preempt=0, max_steps=60000000, cross_check=False), reach=["c07.long.delivered"], no_init_extra=True,
                   bounds="a short line followed by '<pid> <message of L+3 bytes>\\n' (first two and last byte symbolic, the rest concrete filler): longer than bufio's 4096-byte buffer"),
               run("audit-line", AUD, "VerifC07AuditLine", {"params": {"T": 4}, "preempt": 0}, {"params": {"T": 8}, "preempt": 0}, reach=["c07.audit.parsed"],
                   bounds="type in {LOGIN, CRED_DISP, USER_END}, two symbolic digits of seconds and of sequence, 3 millisecond digits, tail of T symbolic bytes; with and without the trailing newline"),
